@@ -246,6 +246,27 @@ func genC08(r *Rng, e *Emitter, n int) {
 				corner := func(c []float64) string { return fmt.Sprintf("(f %d %d %s)", int(l0), st, sxCoord(c)) }
 				parts = append([]string{corner(mn), corner(mx)}, parts...)
 			}
+			// ... or it is the box a first geometry returned from Bounds() (a Point, a one-vertex or a
+			// longer line), which the caller then goes on extending
+			var first geom.T
+			if init == 0 && l0 != geom.NoLayout && r.chance(1, 2) {
+				init = 3
+				st := l0.Stride()
+				nv := []int{1, 1, 1, 2, 3}[r.Intn(5)]
+				fc := make([]float64, nv*st)
+				for d := range fc {
+					fc[d] = float64(r.Intn(9) - 4)
+				}
+				switch {
+				case nv == 1 && r.chance(1, 2):
+					first = geom.NewPointFlat(l0, fc)
+				case r.chance(1, 2):
+					first = geom.NewMultiPointFlat(l0, fc)
+				default:
+					first = geom.NewLineStringFlat(l0, fc)
+				}
+				parts = append([]string{fmt.Sprintf("(f %d %d %s)", int(l0), st, sxCoord(fc))}, parts...)
+			}
 			clone := r.chance(1, 3)
 			e.tally(fmt.Sprintf("extend-init=%d clone=%v", init, clone))
 			e.emit("C08.ext", fmt.Sprintf("(%d (%s))", int(l0), strings.Join(parts, " ")),
@@ -256,6 +277,9 @@ func genC08(r *Rng, e *Emitter, n int) {
 						b.Set(append(append([]float64{}, mn...), mx...)...)
 					case 2:
 						b.SetCoords(geom.Coord(append([]float64{}, mn...)), geom.Coord(append([]float64{}, mx...)))
+					}
+					if init == 3 {
+						b = first.Bounds()
 					}
 					if clone {
 						b = b.Clone()
